@@ -148,7 +148,8 @@ impl VFileIdx {
             ==> node_of(r->Ok_0) == old(file).tree()[node_offset],
 //@end
 
-// ASSUMED contract of `read_block_data` (signature cut from /repo, body skipped: seek + read_exact +
+// Contract of `read_block_data` — PROVED in unit blk_read (labels read_block_data/*) under the named precondition that the
+// advertised inflate buffer covers the block; here the signature is cut from /repo and the body skipped: seek + read_exact +
 // libdeflater): may fail (I/O); if it succeeds and `info` carries the file's own uncompress_buf_size it
 // yields THE bytes of that block -- a function of the immutable file and the block only (deterministic
 // inflate).  The file content does not change; one log entry per call.
